@@ -423,6 +423,10 @@ def run(ck, facts):
     c05.run(sub, facts)
     sub2 = C.SubCheck(ck, "R7", "", ["R2"], key_re=r"cache-key")
     c07.run(sub2, facts)
+    import c08
+    c08.js_result_buffer_rules(ck, "R5", facts)
+    sub3 = C.SubCheck(ck, "R5", "", ["R5"], key_re=r"[Oo]ption")
+    c08.run(sub3, facts)
 
 
 def _walk_val(v):
